@@ -269,7 +269,7 @@ SET_DATA = REG.add(Contract(
            2: lambda c: sd_kept(c)},
     loop_ghost={0: ["$renumbered"], 1: ["$renumbered"], 2: ["$renumbered"]},
     ghost_init=sd_init,
-    hooks={"self.curves.assign_duplicate_suffixes()": sd_hook_ads, "curve.mnemonic = names[i]": sd_hook_rename},
+    hooks={"contains:.assign_duplicate_suffixes()": sd_hook_ads, "contains:.mnemonic = ": sd_hook_rename},
     use=USE, abstract_exprs=True, may_raise=["Any"], verify_with=sd_verify, prune=True,
     properties=("C14", "C16")))
 SET_DATA.note = "numpy expressions are opaque; the DataFrame branch and np.asarray above the block are outside the contract"
@@ -317,6 +317,6 @@ SET_DATA_NAMES = REG.add(Contract(
            2: sd_names_inv2},
     loop_ghost={0: ["$renumbered"], 1: ["$renumbered"], 2: ["$renumbered"]},
     ghost_init=sd_init,
-    hooks={"self.curves.assign_duplicate_suffixes()": sd_hook_ads, "curve.mnemonic = names[i]": sd_hook_rename},
+    hooks={"contains:.assign_duplicate_suffixes()": sd_hook_ads, "contains:.mnemonic = ": sd_hook_rename},
     use=USE, abstract_exprs=True, may_raise=["Any"], verify_with=sd_verify, prune=True,
     properties=("C14",)))
